@@ -305,6 +305,7 @@ def run_case(spec, lines, out):
             via = lay.get("via") if (lay.get("index") == "none" and not lay.get("csv") and op.get("target") != "existing") else None
             if via == "xlsxreader" and np.any((np.abs(arr.values) < 1e-6) & (arr.values != 0)):
                 via = "csvreader"        # a sheet keeps 15-16 significant digits: 2^-30 does not survive it exactly
+                lay = dict(lay); lay["via"] = via          # the `note layout` line tells the oracle what was really done
             reader = None
             if via:
                 # through the parameter readers: the file is written here, read by the reader; the model
